@@ -418,3 +418,27 @@ Proof.
   - intros i Hi. now apply insert_remove_nth.
 Qed.
 Print Assumptions pca_axis_bookkeeping.
+
+(* (17) The orthogonal projector onto a column space is unique (any commutative ring, so in
+   particular Q): two symmetric matrices each acting as the identity on the other's range are
+   equal.  pca.py's `X pinv(X)` therefore depends on design_keep / design_resid only through
+   their column span - the fact used by the rank-deficient design oracles (expected projector
+   from an SVD, re-parametrised designs). *)
+From NV.C19 Require Import PcaProj.
+Theorem pca_projector_unique :
+  forall (R : Type) (r0 r1 : R) (radd rmul rsub : R -> R -> R) (ropp : R -> R),
+  ring_theory r0 r1 radd rmul rsub ropp (@eq R) ->
+  forall (n : nat) (P P' : mat R),
+  meq R n (tr R P) P -> meq R n (tr R P') P' ->
+  meq R n (mmul R r0 radd rmul n P' P) P ->
+  meq R n (mmul R r0 radd rmul n P P') P' ->
+  meq R n P P'.
+Proof. exact projector_unique_proof. Qed.
+Print Assumptions pca_projector_unique.
+
+(* non-vacuity: the projector onto span{(1,1)} over Z scaled by 2, i.e. 2P = [[1,1],[1,1]]:
+   symmetric and (2P)(2P) = 2 (2P) *)
+Example pca_projector_example :
+  let P2 := fun i j : nat => 1%Z in
+  mmul Z 0%Z Z.add Z.mul 2 P2 P2 0 1 = 2%Z /\ tr Z P2 0 1 = P2 0 1.
+Proof. vm_compute. split; reflexivity. Qed.
